@@ -1,2 +1,134 @@
-(** C20 — placeholder while the proofs are being written. *)
-From CM Require Import Account.Model.
+(** C20 — One ACME account per CA and contact: registered once, persisted, always reused.
+    Only statements, each closed by [exact] (or a two-line proof), with [Print Assumptions].
+    Model: [Account.Model] (threads = doIssue / newACMEClientWithAccount calls of any number of
+    instances; CA index [c]; counters fsaves / crashes / deletes / resets are ghost). *)
+From CM Require Import Lib.Str Gen.Consts Account.Model Account.Proofs Account.Recreate Account.Url
+  Account.Examples.
+From Coq Require Import Arith.
+Open Scope nat_scope.
+
+(** Clause 1, no storage faults: for every number of instances, threads and schedules, as long
+    as no save failed, no instance crashed between registering and saving and the CA was not
+    re-installed, the CA has created at most one account. *)
+Theorem C20_at_most_one_registration : forall s c,
+  reachable s -> fsaves s c = 0 -> crashes s c = 0 -> resets s c = 0 -> created s c <= 1.
+Proof. exact at_most_one_registration. Qed.
+Print Assumptions C20_at_most_one_registration.
+
+(** Clause 1 with faults: register-then-save cannot do better than one extra account per lost
+    save; every registration beyond the first is accounted for by a failed Store of the save, a
+    crash inside the register..save window, or a Delete of the recreate path. *)
+Theorem C20_registrations_bounded_by_failed_saves : forall s c,
+  reachable s -> created s c <= 1 + fsaves s c + crashes s c + deletes s c.
+Proof. exact registrations_bounded. Qed.
+Print Assumptions C20_registrations_bounded_by_failed_saves.
+
+(** ... and the recreate path never runs unless the CA was re-installed *)
+Theorem C20_no_reset_no_delete : forall s c, reachable s -> resets s c = 0 -> deletes s c = 0.
+Proof. exact no_reset_no_delete. Qed.
+Print Assumptions C20_no_reset_no_delete.
+
+(** Clause 2: whatever faults and crashes hit the save, the key file is never in storage
+    without the registration of the same account (both files, or after rollback neither, or
+    the registration alone, which loads as absent: [Examples.reg_only_after_crash]). *)
+Theorem C20_persisted_together : forall s c k,
+  reachable s -> deletes s c = 0 -> s_key (slots s c) = Some k -> s_reg (slots s c) = Some k.
+Proof. exact persisted_together. Qed.
+Print Assumptions C20_persisted_together.
+
+(** Clause 3: every issuance that succeeds used the one account that is completely stored *)
+Theorem C20_issued_with_stored_account : forall s c t m,
+  reachable s -> deletes s c = 0 -> t_ca (thr s t) = c -> t_pc (thr s t) = Done (Some m) ->
+  m_key m = m_loc m /\ slots s c = Slot (Some (m_loc m)) (Some (m_loc m)).
+Proof. exact issued_with_stored_account. Qed.
+Print Assumptions C20_issued_with_stored_account.
+
+(** Clause 3/4: once an account is settled, every continuation (any threads, instances,
+    restarts, interleavings, storage faults, crashes, re-installation of *other* CAs) keeps it in
+    storage, registers nothing, and every successful issuance uses it. [stable] needs no
+    reachability assumption. *)
+Theorem C20_existing_account_reused : forall s c a ls s1,
+  stable s c a -> run s ls = Some s1 -> ~ In (Reset c) ls ->
+  stable s1 c a /\ created s1 c = created s c /\
+  forall t m, t_ca (thr s1 t) = c -> t_pc (thr s1 t) = Done (Some m) -> m = MA a a.
+Proof. exact existing_account_reused. Qed.
+Print Assumptions C20_existing_account_reused.
+
+(** Clause 4: a completely stored account is modified only by deleteAccountLocally, run by a
+    thread of that very CA (the directory in use — the defect fixed by f80e244 is excluded) to
+    which the CA answered accountDoesNotExist for the account it held, which the CA has indeed
+    forgotten. *)
+Theorem C20_replaced_only_if_ca_says_gone : forall s l s1 c a,
+  reachable s -> step s l = Some s1 ->
+  slots s c = Slot (Some a) (Some a) -> slots s1 c <> slots s c ->
+  exists t m, l = Op t false /\ t_ca (thr s t) = c /\
+              (t_pc (thr s t) = DelReg m \/ t_pc (thr s t) = DelKey m) /\
+              m_loc m <= forgotten s c /\ live s c (m_loc m) = false.
+Proof. exact replaced_only_if_ca_says_gone. Qed.
+Print Assumptions C20_replaced_only_if_ca_says_gone.
+
+(** Clause 4 at full strength (the account reported missing IS the stored one) for one issuance
+    at a time; this is the statement the defect fixed by 1117f7d violated. *)
+Theorem C20_replaced_only_if_ca_says_gone_sequential : forall s l s1 c a,
+  seq_reachable s -> seq_ok s l -> step s l = Some s1 ->
+  slots s c = Slot (Some a) (Some a) -> slots s1 c <> slots s c ->
+  exists t, l = Op t false /\ t_ca (thr s t) = c /\ t_pc (thr s t) = DelReg (MA a a) /\
+            live s c a = false.
+Proof. exact replaced_only_if_ca_says_gone_sequential. Qed.
+Print Assumptions C20_replaced_only_if_ca_says_gone_sequential.
+
+(** ... and it is false with two issuances in flight (known finding
+    C20-concurrent-recreate-deletes-live-account; witness replayed on the real code by the
+    corpus case of class concurrent-recreate). *)
+Theorem C20_replaced_only_if_ca_says_gone_concurrent_refuted :
+  exists s l s1 c a,
+    reachable s /\ step s l = Some s1 /\
+    slots s c = Slot (Some a) (Some a) /\ live s c a = true /\ slots s1 c <> slots s c.
+Proof. exact replaced_only_if_ca_says_gone_concurrent_refuted. Qed.
+Print Assumptions C20_replaced_only_if_ca_says_gone_concurrent_refuted.
+
+(** the account files of another CA (production vs. test) are never touched *)
+Theorem C20_only_directory_in_use_touched : forall s t f s1 c,
+  step s (Op t f) = Some s1 -> c <> t_ca (thr s t) -> slots s1 c = slots s c.
+Proof. exact only_directory_in_use_touched. Qed.
+Print Assumptions C20_only_directory_in_use_touched.
+
+(** Clause 5, for every CA URL string, test-CA URL string and attempt, with url.Parse and
+    SubjectIsInternal as arbitrary functions: a client is only built for a directory that, as
+    the rule reads it, is HTTPS or internal. *)
+Theorem C20_https_unless_internal : forall parse internal ca_url test_url use_test d,
+  client_dir parse internal ca_url test_url use_test = Some d -> secure parse internal d = true.
+Proof. exact https_unless_internal. Qed.
+Print Assumptions C20_https_unless_internal.
+
+Corollary C20_never_plain_http_to_public_host :
+  forall parse internal ca_url test_url use_test d scheme host,
+  client_dir parse internal ca_url test_url use_test = Some d ->
+  parse (effective d) = Some (scheme, host) -> scheme <> url_https_scheme -> internal host = true.
+Proof. exact never_plain_http_to_public_host. Qed.
+Print Assumptions C20_never_plain_http_to_public_host.
+
+(** non-vacuity: the hypotheses above are met by non-trivial reachable states *)
+Example C20_ex_first_use : exists s, reachable s /\ created s 0 = 1 /\ fsaves s 0 = 0 /\
+  crashes s 0 = 0 /\ resets s 0 = 0 /\ t_pc (thr s 2) = Done (Some (MA 1 1)).
+Proof.
+  destruct first_use_three_threads as (s & Hr & H1 & H2 & H3 & H4 & _ & _ & _ & H5).
+  exists s. repeat split; auto. exists run_first_use. exact Hr.
+Qed.
+Example C20_ex_bound_attained : exists s, reachable s /\
+  created s 0 = 1 + fsaves s 0 + crashes s 0 + deletes s 0 /\ created s 0 = 3.
+Proof.
+  destruct registrations_bound_attained as (s & Hr & H1 & H2 & H3 & H4 & _).
+  exists s. split; [exists run_lost_registrations; exact Hr|]. rewrite H1, H2, H3, H4. split; reflexivity.
+Qed.
+Example C20_ex_stable : exists s, reachable s /\ stable s 0 1.
+Proof. destruct stable_reachable as (s & Hr & Hs). exists s. split; [eexists; exact Hr|exact Hs]. Qed.
+Example C20_ex_sequential_recreate : exists s, seq_reachable s /\
+  slots s 0 = Slot (Some 1) (Some 1) /\ exists s1, step s (Op 0 false) = Some s1 /\ slots s1 0 <> slots s 0.
+Proof.
+  destruct sequential_recreate_reachable as (s & Hs & H1 & _ & _ & H2). exists s. auto.
+Qed.
+Example C20_ex_url : forall internal,
+  client_dir (fun u => if str_eqb u [104; 116; 116; 112; 115; 58; 47; 47; 97]%N then Some ([104; 116; 116; 112; 115]%N, [97]%N) else None)
+             internal [97]%N []%N false = Some [104; 116; 116; 112; 115; 58; 47; 47; 97]%N.
+Proof. intros internal. vm_compute. reflexivity. Qed.
